@@ -1,1 +1,155 @@
-import HdModel.Spec.Pool
+import HdModel.Lemmas.PoolFrame
+/-! # C14 — a waiting request takes a freed connection; its own dial is not wasted
+
+Step-level theorems about the pool model, valid in **every** state (reachable or not), hence for
+every order of first poll, release, hand-back and dial completion. -/
+namespace Hd.Pool
+
+/-- `push` hands a released connection to the first waiter whose receiver is still listening. -/
+theorem pushLoop_first_live (s : State) (t : Token) (c : ConnId) (r : ReqId) (q : List ReqId)
+    (hr : s.chan r = .empty) :
+    ∃ p, (pushLoop s t c (r :: q)).1.chan r = .full p ∧ p.conn = c := by
+  simp only [pushLoop, hr]
+  split
+  · -- shareable: a clone to r, then on to the others; r's channel is not touched again
+    have key : ∀ (s' : State) (l : List ReqId), s'.chan r = .full ⟨c, 0, true⟩ →
+        (pushLoop s' t c l).1.chan r = .full ⟨c, 0, true⟩ := by
+      intro s' l
+      induction l generalizing s' with
+      | nil => intro h; simpa [pushLoop] using h
+      | cons x xs ih =>
+        intro h
+        simp only [pushLoop]
+        split
+        · rename_i hx
+          have hne : x ≠ r := by intro e; subst e; rw [h] at hx; cases hx
+          split
+          · apply ih; simp [upd, hne.symm, h]
+          · simp [upd, hne.symm, h]
+        · exact ih _ h
+    exact ⟨_, key _ q (by simp), rfl⟩
+  · exact ⟨⟨c, t, true⟩, by simp, rfl⟩
+
+/-- **C14 (pre-emption, no later than the next poll).** A request whose channel holds a released
+    connection – whether it is still dialing (waiter `idle`, any number of earlier polls) or waiting
+    for somebody else's attempt – is served by that connection at its next poll. -/
+theorem C14_preempt (s : State) (r : ReqId) (c : Checkout) (p : Pooled)
+    (hc : s.co r = some c) (ha : c.alive = true) (hw : c.waiter ≠ .noPool) (hch : s.chan r = .full p) :
+    (step s (.poll r)).2 = .got p.conn (p.token == 0) := by
+  simp only [step, hc, ha]
+  have : pollCheckout s r c = ({ s with chan := upd s.chan r .rxGone }, { c with waiter := .noPool }, .got p) := by
+    unfold pollCheckout pollWaiter
+    cases hwk : c.waiter with
+    | noPool => exact absurd hwk hw
+    | idle => simp [hch]
+    | connecting => simp [hch]
+  simp [this]
+
+/-- A checkout that is not yet ready keeps listening: polling a dialing checkout whose channel is
+    still empty leaves the channel open (so a later `push` can reach it). -/
+theorem C14_keeps_listening (s : State) (r : ReqId) (c : Checkout)
+    (hwk : c.waiter = .idle) (hch : s.chan r = .empty) :
+    (pollWaiter s r c).1.chan r = .empty ∧ (pollWaiter s r c).2.1.waiter = .idle := by
+  simp [pollWaiter, hwk, hch]
+
+/-- **C14 (continue after pre-emption / cancellation).** With `continue_after_preemption` a dialing
+    checkout that goes away (pre-empted or cancelled) leaves a background task that carries on with
+    its connection attempt; the attempt itself is untouched. -/
+theorem C14_continue (s : State) (r : ReqId) (c : Checkout)
+    (hc : s.co r = some c) (ha : c.alive = true) (hi : c.inner = .delayDrop) :
+    (∃ i, (i, Task.delayed r) ∈ (dropCheckout s r).tasks ∧ i ∈ (dropCheckout s r).runq) ∧
+    (dropCheckout s r).dial r = (returnUnused s c).dial r := by
+  unfold dropCheckout
+  simp only [hc, ha, hi]
+  constructor
+  · refine ⟨(returnUnused s c).nextTask, ?_, ?_⟩
+    · have : ∀ (s' : State), (dropRx s' r).tasks = s'.tasks ∨ ∃ x, (dropRx s' r).tasks = s'.tasks ++ [x] := by
+        intro s'; unfold dropRx; split
+        · unfold dropPooled; split
+          · left; rfl
+          · right; exact ⟨_, rfl⟩
+        · left; rfl
+        · left; rfl
+      simp
+      rcases this (spawn (returnUnused s c) (.delayed r)) with h | ⟨x, h⟩
+      · rw [h]; simp [spawn]
+      · rw [h]; simp [spawn]
+    · have : ∀ (s' : State) (j : Nat), j ∈ s'.runq → j ∈ (dropRx s' r).runq := by
+        intro s' j hj; unfold dropRx; split
+        · unfold dropPooled; split
+          · exact hj
+          · simp [spawn, hj]
+        · exact hj
+        · exact hj
+      simp
+      exact this _ _ (by simp [spawn])
+  · have : ∀ (s' : State), (dropRx s' r).dial = s'.dial := by
+      intro s'; unfold dropRx; split
+      · unfold dropPooled; split <;> rfl
+      · rfl
+      · rfl
+    simp [this, spawn]
+
+theorem dropRx_connecting (s : State) (r : ReqId) : (dropRx s r).connecting = s.connecting := by
+  unfold dropRx; split
+  · unfold dropPooled; split <;> rfl
+  · rfl
+  · rfl
+
+theorem dropRx_closes (s : State) (r : ReqId) : (dropRx s r).chan r ≠ .empty ∧ ∀ p, (dropRx s r).chan r ≠ .full p := by
+  unfold dropRx
+  split
+  · rename_i p hp
+    unfold dropPooled
+    split <;> simp [spawn]
+  · simp
+  · rename_i h1 h2
+    exact ⟨fun h => h2 h, fun p h => h1 p h⟩
+
+/-- **C14 (discard).** Without `continue_after_preemption` a dialing checkout that goes away does
+    not continue in the background: its channel is closed, and – if it owned it – the in-progress
+    marker is removed (which also releases the checkouts that were waiting on it, see C03). -/
+theorem C14_discard (s : State) (r : ReqId) (c : Checkout)
+    (hc : s.co r = some c) (ha : c.alive = true) (hi : c.inner = .connecting) :
+    ((dropCheckout s r).chan r ≠ .empty ∧ ∀ p, (dropCheckout s r).chan r ≠ .full p) ∧
+    (c.marker = true → (dropCheckout s r).connecting = (returnUnused s c).connecting.erase c.token) ∧
+    (dropCheckout s r).nextTask ≤ (returnUnused s c).nextTask + 1 := by
+  unfold dropCheckout
+  simp only [hc, ha, hi]
+  refine ⟨?_, ?_, ?_⟩
+  · simpa using dropRx_closes (cancelIfOwner (returnUnused s c) c) r
+  · intro hmk
+    simp only [reduceCtorEq, ↓reduceIte, Bool.not_true, Bool.false_eq_true]
+    rw [dropRx_connecting]
+    unfold cancelIfOwner cancelConnection
+    simp only [hmk, ↓reduceIte]
+    split
+    · have : ∀ (s' : State) (l : List ReqId), (dropSenders s' l).connecting = s'.connecting := by
+        intro s' l
+        induction l generalizing s' with
+        | nil => rfl
+        | cons x xs ih => simp only [dropSenders]; rw [ih]; split <;> rfl
+      simp [this]
+    · rename_i hnc
+      have : c.token ∉ (returnUnused s c).connecting := by simpa using hnc
+      exact (List.erase_of_not_mem this).symm
+  · simp only [reduceCtorEq, ↓reduceIte, Bool.not_true, Bool.false_eq_true]
+    have h1 : (cancelIfOwner (returnUnused s c) c).nextTask = (returnUnused s c).nextTask := by
+      unfold cancelIfOwner cancelConnection
+      split
+      · split
+        · have : ∀ (s' : State) (l : List ReqId), (dropSenders s' l).nextTask = s'.nextTask := by
+            intro s' l
+            induction l generalizing s' with
+            | nil => rfl
+            | cons x xs ih => simp only [dropSenders]; rw [ih]; split <;> rfl
+          simp [this]
+        · rfl
+      · rfl
+    unfold dropRx
+    split
+    · unfold dropPooled; split <;> simp [spawn, h1]
+    · simp [h1]
+    · simp [h1]
+
+end Hd.Pool
